@@ -21,6 +21,11 @@ Init == \/ /\ t \in FrTypes
         \* a large opaque record in front, so that the owner of the last record is a compression pointer to an
         \* offset beyond 1024 / 8192 / 16000 (every bit of the 14-bit offset field matters)
         \/ /\ t = 10 /\ mode = "far-pointer" /\ delta \in {1100, 1101, 1102, 9000, 9001, 9002, 16200, 16201}
+        \* a pointer that leads back INTO the bytes just before itself: the owner of the second record points at the
+        \* last RDATA byte of the first one, a length octet 1 whose label is the pointer's own first byte; decoding
+        \* then runs on through the pointer's second byte (read as a length) in place.  The name is legal; the cursor
+        \* of the enclosing record must still stop right after the two pointer bytes
+        \/ /\ t = 10 /\ mode = "reentry" /\ delta = 0
         \* question codes: every pair of (QTYPE, QCLASS) from codes the crate has no name for, the boundaries of
         \* the 16 / 15-bit fields and one known code each -- the question comes out with the codes on the wire or
         \* the message is rejected
@@ -74,7 +79,17 @@ Quest == IF mode = "question"
 \* Sentinel(2) with its owner written as a pointer to Sentinel(1)'s owner (s1: 01 's' 01 '1' 00)
 FarOffset == 12 + Len(EncQuestion(Quest)) + Len(First)
 SentinelPtr == <<192 + (FarOffset \div 256), FarOffset % 256>> \o SubSeq(Sentinel(1), 6, Len(Sentinel(1)))
-Msg == IF mode = "far-pointer"
+ReT == 12 + Len(EncQuestion(Quest)) + Len(RRHead(4)) + 3
+ReMsg == HdrEncode(9, FlagsOf, 0, 0, 1, 1, 1, 0) \o EncQuestion(Quest) \o RRHead(4) \o <<7, 7, 7, 1>>
+         \o <<192, ReT>> \o BE16(10) \o BE16(1) \o <<0, 0, 0, 9>> \o BE16(ReT + 5)
+         \* (behind the name's terminator the RDATA looks like the fixed part of an A record that ends where the real
+         \* record ends: a parser whose cursor ran on with the name finds a well-formed message there)
+         \o [i \in 1 .. ReT + 5 |-> IF i < ReT - 9 THEN 7 ELSE IF i = ReT - 9 THEN 0 ELSE <<0, 1, 0, 1, 1, 2, 3, 4, 0, 4, 9, 9, 9, 9>>[i - (ReT - 9)]]
+ReentryOK == mode = "reentry" => LET d == RefDecode(ReMsg) IN
+               /\ ReT <= 49 /\ d.ok /\ d.end = Len(ReMsg)
+               /\ Len(d.pkt.ns[1].name) = 2 /\ d.pkt.ns[1].name[1] = <<192>> /\ Len(d.pkt.ns[1].name[2]) = ReT
+Msg == IF mode = "reentry" THEN ReMsg ELSE
+       IF mode = "far-pointer"
        THEN HdrEncode(9, FlagsOf, 0, 0, 1, 1, 1, 1) \o EncQuestion(Quest) \o First \o Sentinel(1) \o SentinelPtr
        ELSE HdrEncode(9, FlagsOf, 0, 0, 1, 1, 1, ArCount) \o EncQuestion(Quest) \o First \o Sentinel(1) \o Sentinel(2)
 FarOK == mode = "far-pointer" => LET d == RefDecode(Msg) IN d.ok /\ d.end = Len(Msg) /\ d.pkt.ar[1].name = <<<<115>>, <<49>>>>
